@@ -58,13 +58,14 @@ Definition as_values (t : tree) : option (option (list name)) :=
   end.
 Definition as_input (t : tree) : option input :=
   match t with
-  | L [t1; t2; t3; t4; t5; t6] =>
+  | L [t1; t2; t3; t4; t5; t6; t7] =>
     match as_list_of as_tok t1, as_list_of as_str t2, as_list_of (as_pair_of as_str as_kind) t3,
-          as_values t4, as_list_of (as_pair_of as_str as_pval) t5, as_bool t6 with
-    | Some toks, Some order, Some kinds, Some vals, Some params, Some pc =>
+          as_values t4, as_list_of (as_pair_of as_str as_pval) t5, as_bool t6,
+          as_list_of (as_pair_of as_str as_N) t7 with
+    | Some toks, Some order, Some kinds, Some vals, Some params, Some pc, Some procs =>
         Some {| i_toks := toks; i_order := order; i_kind := kinds; i_values := vals; i_params := params;
-                i_pc := pc |}
-    | _, _, _, _, _, _ => None
+                i_pc := pc; i_procs := procs |}
+    | _, _, _, _, _, _, _ => None
     end
   | _ => None
   end.
@@ -130,15 +131,18 @@ Definition of_fparams (fp : fparams) : tree :=
 Definition of_exn (e : exn) : tree :=
   L [I (match e with AssertionError => 1 | KeyError => 2 | TypeError => 3 end)%Z].
 
+(* the bind processors of the harness' TypeDecorators: processor p sends v to 10 v + p *)
+Definition run_proc (p : N) (z : Z) : Z := (z * 10 + Z.of_N p)%Z.
+
 Definition styles : list style := [Qmark; Format; Numeric; NumericDollar; Named; Pyformat].
 
-(* input   L [toks; order; kinds; values; params; has-post-compile-binds]
+(* input   L [toks; order; kinds; values; params; has-post-compile-binds; bind processors]
    output  L [ per style:  L [I 0; L [hash text; length text]; params]  |  L [I code] ]
    params  L [I 0; L values]  (positional)  |  L [I 1; hash of the sorted items; size]  (dictionary) *)
 Definition run_with (tab : list (N * N)) (empty_expr : str) (t : tree) : tree :=
   match as_input t with
   | Some inp =>
-      L (map (fun ps => match run tab lit_dec empty_expr ps inp with
+      L (map (fun ps => match run tab lit_dec empty_expr run_proc ps inp with
                         | Ok (ts, fp) => L [I 0%Z; of_text (text_of ps ts); of_fparams fp]
                         | Raise e => of_exn e
                         end) styles)
